@@ -91,10 +91,14 @@ def case(cid, rng, sc):
                 X2 = X @ rat_rot(dx, ang, reflect=True, rng=rng)
             elif kind == "scale-source":
                 X2 = X * float(rng.choice([0.25, 3.0, 16.0]))
+                if user_scaler:
+                    # with the per-column scaler supplied by the user the data is standardised column by column before
+                    # anything else (neighbour search included), so even a per-column rescaling changes nothing
+                    X2 = X * rng.choice([0.25, 3.0, 16.0, 100.0], size=dx)
             elif kind == "scale-target":
                 Y2 = Y * float(rng.choice([0.25, 3.0, 16.0]))
             elif kind == "shift-source":
-                X2 = X + rng.integers(-9, 10, size=dx)
+                X2 = X + rng.integers(-9, 10, size=dx) * float(rng.choice([1.0, 1.0, 1e3, 1e6]))      # also offsets far beyond the spread
             elif kind == "shift-target":
                 Y2 = Y + rng.integers(-9, 10, size=dy)
             elif kind == "rotate-target":
